@@ -40,7 +40,7 @@ PROPS = {
                 "definition yields at least one match; distinct by hash of the whole case.",
         "assumptions": COMMON_ASSUMPTIONS,
         "stages": {"quick": NATIVE, "thorough": NATIVE},
-        "floors": {"quick": {"dense_dictionary_searches": 12, "long_haystacks": 5000, "long_haystacks_64k": 300, "evaluations": 4_000_000, "distinct_nontrivial": 800_000,
+        "floors": {"quick": {"iterator_method_cases": 500_000, "dense_dictionary_searches": 12, "long_haystacks": 5000, "long_haystacks_64k": 300, "evaluations": 4_000_000, "distinct_nontrivial": 800_000,
                              "iter_with_2plus_matches": 300_000, "empty_match_first": 100_000},
                    "thorough": {"evaluations": 100_000_000, "distinct_nontrivial": 1_000_000}},
         "timeout": T_DEFAULT,
@@ -51,7 +51,7 @@ PROPS = {
         "rule": ENUM_RULE + "Standard match kind only. Non-trivial: the definition yields at least one match.",
         "assumptions": COMMON_ASSUMPTIONS,
         "stages": {"quick": NATIVE, "thorough": NATIVE},
-        "floors": {"quick": {"dense_dictionary_searches": 12, "long_haystacks": 5000, "evaluations": 2_000_000, "distinct_nontrivial": 400_000,
+        "floors": {"quick": {"iterator_method_cases": 300_000, "dense_dictionary_searches": 12, "long_haystacks": 5000, "evaluations": 2_000_000, "distinct_nontrivial": 400_000,
                              "iter_with_2plus_matches": 150_000},
                    "thorough": {"evaluations": 50_000_000, "distinct_nontrivial": 1_000_000}},
         "timeout": T_DEFAULT,
@@ -80,7 +80,7 @@ PROPS = {
                 "span start.",
         "assumptions": COMMON_ASSUMPTIONS,
         "stages": {"quick": NATIVE, "thorough": NATIVE},
-        "floors": {"quick": {"histories_with_a_rejected_request_interleaved": 300_000, "evaluations": 10_000_000, "distinct_nontrivial": 1_000_000},
+        "floors": {"quick": {"iterator_method_cases": 900_000, "histories_with_a_rejected_request_interleaved": 300_000, "evaluations": 10_000_000, "distinct_nontrivial": 1_000_000},
                    "thorough": {"evaluations": 200_000_000, "distinct_nontrivial": 1_000_000}},
         "timeout": T_DEFAULT,
     },
@@ -164,7 +164,7 @@ PROPS.update({
             "product walks are capped at 200000 pairs per variant (cap hits are counted; none on the pinned tree)"],
         "stages": {"quick": NATIVE, "thorough": NATIVE},
         "coverage_map": {"states": "product_pairs", "transitions": "product_transitions"},
-        "floors": {"quick": {"huge_automata_lists": 8, "product_transitions": 100_000_000, "product_pairs": 400_000,
+        "floors": {"quick": {"conversion_routes_built": 300, "huge_automata_lists": 8, "product_transitions": 100_000_000, "product_pairs": 400_000,
                              "e2e_compared_top-auto": 5000, "e2e_compared_low-dfa": 5000,
                              "product_walks_low-dfa": 2000, "product_walks_low-cnfa": 2000,
                              "distinct_nontrivial": 20_000},
@@ -235,7 +235,7 @@ PROPS.update({
                 "code or the short-haystack Rabin-Karp fallback ran. Non-trivial: a match exists.",
         "assumptions": COMMON_ASSUMPTIONS,
         "stages": {"quick": NATIVE, "thorough": NATIVE},
-        "floors": {"quick": dict({"giant_pattern_cases": 20, "hash_collision_cases": 20, "searches_at_shifted_base_address": 1_000_000,
+        "floors": {"quick": dict({"iterator_method_cases": 70_000, "giant_pattern_cases": 20, "hash_collision_cases": 20, "searches_at_shifted_base_address": 1_000_000,
                                    "evaluations": 3_000_000, "distinct_nontrivial": 1_000_000,
                                   "vector_path_with_match": 700_000, "match_in_final_16_bytes": 150_000, "near_miss_haystacks": 20_000,
                                   "match_straddles_16_byte_boundary": 100_000},
@@ -253,7 +253,7 @@ PROPS.update({
                 "happened and at least one match exists.",
         "assumptions": COMMON_ASSUMPTIONS[1:] + ["the in-memory find_iter of the same searcher is the reference (its own correctness is C02)"],
         "stages": {"quick": NATIVE, "thorough": NATIVE},
-        "floors": {"quick": {"evaluations": 50_000, "distinct_nontrivial": 30_000, "rolls_observed": 1_000_000,
+        "floors": {"quick": {"stream_count_calls": 4000, "evaluations": 50_000, "distinct_nontrivial": 30_000, "rolls_observed": 1_000_000,
                              "cases_with_roll": 30_000, "cases_default_capacity": 16,
                              "boundary_pattern_length_cases": 10, "prefilter_refill_cases": 10_000},
                    "thorough": {"evaluations": 2_000_000, "rolls_observed": 50_000_000}},
@@ -492,7 +492,7 @@ PROPS.update({
                 "Non-trivial: collections with at least 2 patterns.",
         "assumptions": COMMON_ASSUMPTIONS[1:] + ["the documented size limits (2^31 states etc.) are not approached"],
         "stages": {"quick": NATIVE, "thorough": NATIVE},
-        "floors": {"quick": {"builder_reuse_builds": 500, "packed_builder_reuse_cases": 150, "big_dense_builds": 4, "metadata_read_through_reference_type": 2000, "evaluations": 40_000, "distinct_nontrivial": 8000, "pattern_id_probes": 30_000,
+        "floors": {"quick": {"builders_with_setter_history": 80, "packed_match_kind_reads": 40, "builder_reuse_builds": 500, "packed_builder_reuse_cases": 150, "big_dense_builds": 4, "metadata_read_through_reference_type": 2000, "evaluations": 40_000, "distinct_nontrivial": 8000, "pattern_id_probes": 30_000,
                              "built_top-auto": 1000, "built_low-dfa": 1000, "built_low-cnfa": 1000,
                              "shape_thousands_of_random_patterns": 200, "shape_no_patterns": 500,
                              "convenience_constructor_sets": 500},
@@ -596,7 +596,7 @@ PROPS.update({
                  "miri_seed_per_shard": True},
             ],
         },
-        "floors": {"quick": {"evaluations": 200_000, "overlapping_operation_pairs": 100_000, "protected_windows": 8,
+        "floors": {"quick": {"clone_pairs_checked": 300, "packed_clone_pairs_checked": 80, "evaluations": 200_000, "overlapping_operation_pairs": 100_000, "protected_windows": 8,
                              "rounds_threads": 8, "rounds_tsan": 2, "rounds_miri": 8,
                              "concurrent_stream_find_iter": 10_000, "concurrent_overlapping_step": 10_000,
                              "unrelated_searchers_built": 500_000},
